@@ -1,9 +1,13 @@
 #pragma once
-// Cooperative scheduler with the interface of coop.h (Coop), but the baton is handed over through one atomic that the
-// waiting side polls (a futex round trip costs ~0.25 ms in this sandbox; the B-tree enumeration takes millions of steps).
+// Cooperative scheduler with the interface of coop.h (Coop), but the baton is handed over through one atomic word that
+// the waiting side polls for a moment before it sleeps on it (futex); the B-tree enumeration takes millions of steps.
 // Exactly one thread (or the controller, turn == -1) runs at a time; all shared data is published by the
 // release-store / acquire-load of `turn`.
 #include <atomic>
+#include <climits>
+#include <linux/futex.h>
+#include <sys/syscall.h>
+#include <unistd.h>
 #include <chrono>
 #include <functional>
 #include <string>
@@ -16,23 +20,29 @@ struct CoopBt {
     std::vector<long> steps;
     static thread_local int me;
     explicit CoopBt(int n) : done(n, 0), lastPt(n, "start"), steps(n, 0) {}
+    // poll briefly (the hand-over normally takes < 1 us), then sleep in the kernel on the word itself
     void waitTurn(int who) {
         int spins = 0;
-        while (turn.load(std::memory_order_acquire) != who) {
-            if (++spins > 4000) {
-                std::this_thread::yield();
-            } else {
+        int v;
+        while ((v = turn.load(std::memory_order_acquire)) != who) {
+            if (++spins < 300) {
 #if defined(__x86_64__)
                 __builtin_ia32_pause();
 #endif
+            } else {
+                syscall(SYS_futex, reinterpret_cast<int*>(&turn), FUTEX_WAIT_PRIVATE, v, nullptr, nullptr, 0);
             }
         }
+    }
+    void pass(int to) {
+        turn.store(to, std::memory_order_release);
+        syscall(SYS_futex, reinterpret_cast<int*>(&turn), FUTEX_WAKE_PRIVATE, INT_MAX, nullptr, nullptr, 0);
     }
     void yield(const char* pt) {
         if (me < 0) return;
         int id = me;
         lastPt[id] = pt;
-        turn.store(-1, std::memory_order_release);
+        pass(-1);
         waitTurn(id);
     }
     void threadBody(int id, const std::function<void()>& f) {
@@ -42,13 +52,13 @@ struct CoopBt {
         done[id] = 1;
         lastPt[id] = "done";
         me = -1;
-        turn.store(-1, std::memory_order_release);
+        pass(-1);
     }
     // run thread t until its next yield; false if already finished
     bool step(int t) {
         if (done[t]) return false;
         steps[t]++;
-        turn.store(t, std::memory_order_release);
+        pass(t);
         waitTurn(-1);
         return true;
     }
